@@ -39,9 +39,9 @@ impl Dec<'_> {
         self.k += 1;
         self.k * 10
     }
-    // Body of 1..=2 statements.
+    // Body of 1..=3 statements.
     fn body(&mut self, depth: usize) -> Vec<Stmt> {
-        let n = 1 + self.next().unwrap_or(0) % 2;
+        let n = 1 + self.next().unwrap_or(0) % 3;
         let mut b = vec![];
         for _ in 0..n {
             if let Some(s) = self.stmt(depth) {
